@@ -18,21 +18,54 @@ pub(crate) fn any_subband() -> Option<Subband> {
     }
 }
 
-/// arbitrary bookkeeping state satisfying the representation invariant below
+/// A *reachable* AvailableChannels state, generated from its parameters (generator-style
+/// invariant): offsets `used` have been consumed in every bank in completed rounds; in the
+/// current round offset `o` has been consumed in the `v` banks b0, b0+1, ... (cyclically over
+/// the 9 banks); `previous` is the channel consumed last.  v = 0 with used = 0 is the fresh state.
+pub(crate) fn any_available() -> AvailableChannels {
+    let used: u8 = kani::any();
+    let o: u8 = kani::any();
+    let b0: u8 = kani::any();
+    let v: u8 = kani::any();
+    kani::assume(o < 8 && b0 < 8 && v <= 9);
+    kani::assume(used & (1 << o) == 0);
+    let mut data = [0u8; 9];
+    let mut previous = None;
+    let mut bank = 0u8;
+    while bank < 9 {
+        let mut bits = !used;
+        // position of `bank` in the visiting order starting at b0
+        let pos = (bank + 9 - b0) % 9;
+        if pos < v {
+            bits &= !(1 << o);
+        }
+        data[bank as usize] = bits;
+        bank += 1;
+    }
+    if v > 0 {
+        previous = Some(((b0 + v - 1) % 9) * 8 + o);
+    } else {
+        // nothing consumed in this round: only the fresh state has no `previous`
+        kani::assume(used == 0);
+    }
+    AvailableChannels { data: ChannelMask::from(data), previous }
+}
+
+/// arbitrary reachable bookkeeping state
 pub(crate) fn any_join_channels() -> JoinChannels {
-    let m: [u8; 9] = kani::any();
     let jc = JoinChannels {
         max_retries: kani::any(),
         num_retries: kani::any(),
         preferred_subband: any_subband(),
-        available_channels: AvailableChannels { data: ChannelMask::from(m), previous: kani::any() },
+        available_channels: any_available(),
         previous_channel: kani::any(),
     };
     kani::assume(inv(&jc));
     jc
 }
 
-/// I-fix (join part): channel numbers are < 72, counters cannot overflow in one step
+/// I-fix (join part): channel numbers are < 72, counters cannot overflow in one step; a bias
+/// that has not been used up implies untouched round-robin bookkeeping (both are reset together)
 pub(crate) fn inv(jc: &JoinChannels) -> bool {
     jc.previous_channel < 72
         && match jc.available_channels.previous { Some(p) => p < 72, None => true }
